@@ -6,7 +6,7 @@
 unsigned long vp_trace_in;
 int vp_symbolic_phase = 0;
 #ifndef VP_REALLOC_K
-#define VP_REALLOC_K 64      /* words copied by the loop model (512 bytes); larger blocks use the array primitives */
+#define VP_REALLOC_K 0       /* words copied by a loop model instead of the array primitives; harnesses that reallocate with SYMBOLIC sizes (C03 growth) set 64: exact there, pure cost elsewhere */
 #endif
 #ifndef VP_KEEP_CBMC_REALLOC
 void *realloc(void *p, size_t n)
